@@ -275,6 +275,27 @@ pub fn inputs(tier: Tier) -> Vec<(String, &'static str)> {
                 }
             }
         }
+        // the same code points at every pair of character positions of two query texts (the query parsers look for
+        // their keywords — WHERE, AND, NOT — case-insensitively or by offset)
+        for seed in ["sum(?amount) WHERE purchase(?item, ?amount)", "count(?é) where ü(?é) AND NOT b(?é)"] {
+            let cs: Vec<char> = seed.chars().collect();
+            for ch in ["\u{212a}", "\u{130}", "\u{1e9e}", "\u{2126}", "\u{212b}", "\u{fb01}"] {
+                for i in 0..=cs.len() {
+                    for j in i..=cs.len() {
+                        if j > i + 6 && j != cs.len() {
+                            continue;
+                        }
+                        let mut t: Vec<String> = cs.iter().map(|c| c.to_string()).collect();
+                        t.insert(j, ch.to_string());
+                        t.insert(i, ch.to_string());
+                        v.push((t.concat(), "case_folding_length_change"));
+                    }
+                    let mut t: Vec<String> = cs.iter().map(|c| c.to_string()).collect();
+                    t.insert(i, ch.to_string());
+                    v.push((t.concat(), "case_folding_length_change"));
+                }
+            }
+        }
         for ch in ["\u{212a}", "\u{130}"] {
             for tail in ["", " ", "é", "x", "\u{130}"] {
                 v.push((format!("rule R {{ when A.b == 1 {} then{}", ch, tail), "case_folding_length_change"));
